@@ -48,15 +48,15 @@ ENGINE_STREAMS = {
     # property: list of (profile, histories quick, histories thorough, ops)
     "C01": [("C01", 50, 1500, 40), ("static", 30, 1000, 40), ("wide", 30, 600, 30), ("widekids", 30, 600, 90), ("readd", 30, 1000, 30)],
     "C02": [("C01", 40, 1500, 40), ("midset", 30, 1000, 40), ("binds", 30, 1500, 40), ("raise", 40, 1000, 30), ("chain", 30, 1000, 30)],
-    "C03": [("C01", 40, 1500, 40), ("faults", 30, 1000, 40), ("alwaysfaults", 40, 1000, 40), ("sentinel", 80, 2000, 40)],
-    "C05": [("C01", 30, 1500, 40), ("faults", 30, 1500, 40), ("reject", 30, 1000, 40), ("wide", 20, 400, 30), ("sentinel", 60, 1500, 40), ("fanout", 30, 1000, 46)],
+    "C03": [("C01", 40, 1500, 40), ("faults", 30, 1000, 40), ("alwaysfaults", 40, 1000, 40), ("sentinel", 80, 2000, 40), ("sentinelfaults", 60, 1500, 40)],
+    "C05": [("C01", 30, 1500, 40), ("faults", 30, 1500, 40), ("reject", 30, 1000, 40), ("wide", 20, 400, 30), ("sentinel", 60, 1500, 40), ("fanout", 30, 1000, 46), ("sentinelfaults", 40, 1500, 40)],
     "C06": [("C01", 40, 1500, 40), ("churn", 40, 1000, 60), ("wide", 20, 400, 30), ("sentinel", 60, 1500, 40), ("inner", 30, 1000, 40)],
     "C07": [("faults", 50, 2000, 40), ("alwaysfaults", 50, 2000, 40), ("binds", 20, 1000, 40), ("reject", 30, 1000, 40), ("pardropfaults", 30, 1000, 30)],
     "C08": [("binds", 60, 3000, 40), ("inner", 30, 1000, 40), ("bind2", 60, 2000, 40), ("deadobs", 40, 1500, 40), ("chain", 40, 1500, 30)],
     "C10": [("C01", 30, 1500, 40), ("faults", 30, 1500, 40), ("inner", 40, 1500, 40)],
-    "C11": [("cutoffs", 60, 3000, 40), ("midset", 50, 1500, 40), ("readd", 40, 1500, 30)],
+    "C11": [("cutoffs", 60, 3000, 40), ("midset", 50, 1500, 40), ("readd", 40, 1500, 30), ("cutfaults", 40, 1500, 40)],
     "C12": [("midset", 40, 1500, 40), ("unobs", 30, 1500, 40), ("relink", 50, 1500, 34)],
-    "C13": [("C01", 40, 1500, 40), ("midset", 30, 1500, 40), ("inner", 30, 1500, 40)],
+    "C13": [("C01", 40, 1500, 40), ("midset", 30, 1500, 40), ("inner", 30, 1500, 40), ("faults", 30, 1500, 40)],
 }
 
 
@@ -87,7 +87,7 @@ ENGINE_PAR_STREAMS = {
     "C08": ["binds", "inner"],
     "C10": ["pardrop", "inner"],
     "C12": ["midset", "relink"],
-    "C13": ["binds", "midset"],
+    "C13": ["binds", "midset", "faults"],
 }
 
 
@@ -140,7 +140,7 @@ def run_engine(ctx, K):
         rep = K.run_tool(ctx, b, ["-prop", profile, "-claim", ctx.pid] + extra + ["-n", str(n), "-ops", str(ops), "-coq", cases,
                                   "-coqmax", str(tier_n(ctx, 1, 5) if profile == "widekids" else tier_n(ctx, nq, 1500)),
                                   "-seed", str(ctx.seed)], "engine-" + profile)
-        if profile in ("bind2", "sentinel"):
+        if profile in ("bind2", "sentinel", "sentinelfaults"):
             continue  # Bind2/3/4 (sugar over Map2 + Bind) and Sentinel are exercised on the implementation only, not in the Coq model
         if rep:
             ctx.coq_cases += rep.get("coq_cases", 0)
@@ -180,6 +180,9 @@ def run_C18_full(ctx, K):
     if rep:
         ctx.coq_cases += rep.get("coq_cases", 0)
         K.run_cases(ctx, cases, "Engine.v (addChild/adjustHeights)~graph.go, adjust_heights_heap.go (fanout stream)")
+    # always nodes whose own function fails (sentinels): the error path and the end-of-pass re-queue meet in the heap (implementation only)
+    K.run_tool(ctx, b, ["-prop", "sentinelfaults", "-claim", "C18", "-include", "C03,C05", "-n", str(tier_n(ctx, 600, 6000)),
+                        "-seed", str(ctx.seed)], "engine-sentinelfaults")
 
 
 def run_C05_edgeindex(ctx, K):
